@@ -42,6 +42,9 @@ const (
 	accidentalNatural = ""
 	accidentalSharp   = "#"
 	accidentalFlat    = "b"
+
+	accidentalSharpUnicode = "♯"
+	accidentalFlatUnicode  = "♭"
 )
 
 var (
@@ -56,6 +59,13 @@ var (
 func NewAccidental(s string) Accidental {
 	if x, ok := stringAccidentalMap[s]; ok {
 		return x
+	}
+	// the lexer accepts the unicode signs as sharp and flat tokens too
+	switch s {
+	case accidentalSharpUnicode:
+		return Sharp
+	case accidentalFlatUnicode:
+		return Flat
 	}
 	return Natural
 }
